@@ -4,7 +4,9 @@
                      made from the RECEIVED ciphertext - and in particular not the value made from the re-encrypted one
    parse-ek        : ML-KEM encapsulation keys are accepted exactly when every 12-bit coefficient TLC decodes from the bytes is below q,
                      and an accepted key re-encodes to the same bytes
-   parse-dk        : ML-KEM decapsulation keys are accepted exactly when the embedded hash is H(ek) (r.hash_ok) and re-encode to the same bytes
+   parse-dk        : ML-KEM decapsulation keys are refused when the embedded hash is not H(ek) (r.hash_ok), accepted when it is and the embedded
+                     ek is canonical (r.ek_canon), and an accepted key always re-encodes to the same bytes (a key with a matching hash over a
+                     non-canonical ek may be refused or kept byte for byte, never normalised)
    helper          : KyberHelpers!OkBlock *)
 EXTENDS Integers, Sequences, TLC, Json
 VARIABLES l, bad
@@ -18,7 +20,7 @@ OkLine(r) ==
     [] r.ev = "encaps" -> r.panics = 0 /\ r.ct = r.ref_ct /\ r.ss = r.ref_ss
     [] r.ev = "decaps" -> r.panics = 0 /\ r.k = FO!Expected(r) /\ (r.k_reject # r.k_reject_cprime => (r.same \/ r.k # r.k_reject_cprime))
     [] r.ev = "parse-ek" -> r.panics = 0 /\ (r.accepted <=> Reduced(r.bytes, r.kk)) /\ (r.accepted => r.reencodes)
-    [] r.ev = "parse-dk" -> r.panics = 0 /\ (r.accepted <=> r.hash_ok) /\ (r.accepted => r.reencodes)
+    [] r.ev = "parse-dk" -> r.panics = 0 /\ (r.accepted => r.hash_ok /\ r.reencodes) /\ (r.hash_ok /\ r.ek_canon => r.accepted)
     [] r.ev = "helper" -> KH!OkBlock(r)
     [] OTHER -> FALSE
 INSTANCE LinesTrace WITH Ok <- OkLine
